@@ -821,6 +821,13 @@ class Extractor:
 
         all_edits = list(spec.edits)
         skipped_groups = set()
+        # optional rewrites of one rule form a group: applied all together or not at all (checked before anything is applied)
+        for e in all_edits:
+            if e.get('op') == 'rewrite' and e.get('optional') and e.get('scope') is None:
+                try:
+                    find_anchor(text, e['frm'], None)
+                except LostAnchor:
+                    skipped_groups.add(e['rule'])
         if self.canary and has_body and not spec.external:
             cl = ['proof { assert(false); } // CANARY']
             scopes = [None] + [e['scope'] for e in spec.edits if e['op'] == 'nested-spec']
